@@ -19,6 +19,12 @@ Mirrors, function for function (file:line of the provenance repository):
   `ValidateAndCollectCommitmentCreationFee`, `MsgServer.CommitFunds`  keeper/commitments.go:73,101,251; msg_server.go:48
 * `validateAcceptingOrdersAndCanUserSettle`, the admission prefix of `FillBids` / `FillAsks`
                                                               keeper/fulfillment.go:31,42,138
+* the per-market messages of the governance authority, which do not look whether the market
+  exists: `UpdateMarketAcceptingOrders` / `UpdateUserSettlementAllowed` /
+  `UpdateMarketAcceptingCommitments` (keeper/market.go:898,916,934), `CloseMarket` (:1602),
+  `UpdateFees` → `updateFlatFees` / `updateFeeRatios` (:794,178,373), `UpdateReqAttrs` →
+  `updateReqAttrs` (:1301,1160), and `storeMarket` (:1397: every list is deleted and rewritten,
+  every flag set or deleted) — `MStore`, `Step`, `History`
 
 The market store is a map: flat options are keyed by denom, ratios by (price denom, fee denom).
 The model keeps them as association lists and looks up the first entry with the key.
@@ -273,6 +279,139 @@ historical witness `PvProofs.C20.commit_reqattr_not_normalised_before_fix`. -/
 def storeMarketPreFix (m : Market) : Market :=
   { m with reqAsk := m.reqAsk.map normalizeName, reqBid := m.reqBid.map normalizeName }
 
+/-! ### The entries of the exchange store under one market id
+
+The exchange store keeps, per market id, the known-market index entry and the per-field entries
+(flat options, ratios, the three flags, the three required-attribute lists).  The field
+entries can be written by the governance authority whether or not the id is a known market:
+`HasPermission` (keeper/market.go:1017) is true for the authority on every id and none of the
+update functions looks at the known-market index. -/
+
+/-- What is stored under one market id: the known-market index entry (`isMarketKnown`) and
+the field entries read as a `Market` (an empty store reads as the default record: accepting
+orders — no not-accepting key —, no user settlement, no commitments, empty lists). -/
+structure MStore where
+  known : Bool := false
+  m : Market := {}
+  deriving Repr
+
+/-- `validateMarketExists` + the fields: the market an admission sees. -/
+def MStore.view (s : MStore) : Option Market := if s.known then some s.m else none
+
+inductive FlatKind where
+  | ask | bid | commit | seller | buyer
+  deriving DecidableEq, Repr
+
+inductive AttrKind where
+  | ask | bid | commit
+  deriving DecidableEq, Repr
+
+/-- One per-market message of the authority (one fee kind / attribute list per message). -/
+inductive Step where
+  | acceptingOrders (b : Bool)        -- MsgMarketUpdateAcceptingOrders
+  | userSettle (b : Bool)             -- MsgMarketUpdateUserSettle
+  | acceptingCommitments (b : Bool)   -- MsgMarketUpdateAcceptingCommitments (authority: no fee precondition)
+  | close                             -- MsgGovCloseMarket
+  | flatFees (k : FlatKind) (rem add : List Coin)       -- MsgGovManageFees
+  | ratios (seller : Bool) (rem add : List Ratio)       -- MsgGovManageFees
+  | reqAttrs (k : AttrKind) (rem add : List String)     -- MsgMarketManageReqAttrs
+  deriving Repr
+
+/-- `store.Delete(maker.key(marketID, denom))` -/
+def delFlat (opts : List Coin) (d : Denom) : List Coin := opts.filter fun o => o.1 ≠ d
+
+/-- market.go `setFlatFee`: the entry under the denom is (over)written. -/
+def setFlat (opts : List Coin) (c : Coin) : List Coin := delFlat opts c.1 ++ [c]
+
+/-- market.go:178 `updateFlatFees`: delete every `toDelete` denom, then write every `toWrite`. -/
+def updateFlatFees (opts rem add : List Coin) : List Coin :=
+  add.foldl setFlat (rem.foldl (fun o c => delFlat o c.1) opts)
+
+def delRatio (rs : List Ratio) (pd fd : Denom) : List Ratio :=
+  rs.filter fun r => ¬ (r.pd = pd ∧ r.fd = fd)
+
+/-- market.go `setFeeRatio`: the entry under (price denom, fee denom) is (over)written. -/
+def setRatio (rs : List Ratio) (r : Ratio) : List Ratio := delRatio rs r.pd r.fd ++ [r]
+
+/-- market.go:373 `updateFeeRatios`. -/
+def updateFeeRatios (rs rem add : List Ratio) : List Ratio :=
+  add.foldl setRatio (rem.foldl (fun o r => delRatio o r.pd r.fd) rs)
+
+/-- market.go:1160 `updateReqAttrs` (lists already normalised): `none` = the error (a removal
+that is not required at present, an addition that already is), nothing written. -/
+def updateReqAttrs (cur rem add : List String) : Option (List String) :=
+  if rem.any (fun a => !cur.contains a) || add.any (fun a => cur.contains a) then none
+  else some (cur.filter (fun a => !rem.contains a) ++ add)
+
+def Market.flatOf (m : Market) : FlatKind → List Coin
+  | .ask => m.createAskFlat
+  | .bid => m.createBidFlat
+  | .commit => m.createCommitFlat
+  | .seller => m.sellerFlat
+  | .buyer => m.buyerFlat
+
+def Market.setFlatOf (m : Market) (k : FlatKind) (l : List Coin) : Market :=
+  match k with
+  | .ask => { m with createAskFlat := l }
+  | .bid => { m with createBidFlat := l }
+  | .commit => { m with createCommitFlat := l }
+  | .seller => { m with sellerFlat := l }
+  | .buyer => { m with buyerFlat := l }
+
+def Market.reqOf (m : Market) : AttrKind → List String
+  | .ask => m.reqAsk
+  | .bid => m.reqBid
+  | .commit => m.reqCommit
+
+def Market.setReqOf (m : Market) (k : AttrKind) (l : List String) : Market :=
+  match k with
+  | .ask => { m with reqAsk := l }
+  | .bid => { m with reqBid := l }
+  | .commit => { m with reqCommit := l }
+
+/-- What one authority message does to the field entries of a market id.  The three flag
+updates return an error when the flag already has the value (market.go:901,919,937): the
+entries are the same either way.  `UpdateReqAttrs` (market.go:1301) normalises both lists
+(names in messages are valid names: `IsValidReqAttr` is not modelled). -/
+def Step.applyTo (m : Market) : Step → Market
+  | .acceptingOrders b => { m with acceptingOrders := b }
+  | .userSettle b => { m with userSettle := b }
+  | .acceptingCommitments b => { m with acceptingCommitments := b }
+  | .close => { m with acceptingOrders := false, acceptingCommitments := false }
+  | .flatFees k rem add => m.setFlatOf k (updateFlatFees (m.flatOf k) rem add)
+  | .ratios true rem add => { m with sellerRatios := updateFeeRatios m.sellerRatios rem add }
+  | .ratios false rem add => { m with buyerRatios := updateFeeRatios m.buyerRatios rem add }
+  | .reqAttrs k rem add =>
+    match updateReqAttrs (m.reqOf k) (rem.map normalizeName) (add.map normalizeName) with
+    | some l => m.setReqOf k l
+    | none => m
+
+/-- An authority message on a market id: the known-market index is neither read nor written. -/
+def MStore.admin (s : MStore) (st : Step) : MStore := { s with m := st.applyTo s.m }
+
+/-- keeper/market.go:1449 `CreateMarket` → :1397 `storeMarket`: refused when the market
+account exists (= the id is known, the account is only made here); otherwise the known-market
+entry is set and **every** field entry is replaced by the requested (normalised) value — the
+`set…` helpers delete the whole prefix / the flag key before writing. -/
+def MStore.create (s : MStore) (requested : Market) : MStore :=
+  if s.known then s else { known := true, m := storeMarket requested }
+
+/-- A history on one market id: authority messages, then (maybe) the creation of the market,
+then more authority messages. -/
+structure History where
+  pre : List Step := []
+  requested : Option Market := none
+  post : List Step := []
+  deriving Repr
+
+/-- The store entries under the id after the history, starting from nothing. -/
+def History.run (h : History) : MStore :=
+  let s1 := h.pre.foldl MStore.admin {}
+  let s2 := match h.requested with
+    | some rq => s1.create rq
+    | none => s1
+  h.post.foldl MStore.admin s2
+
 /-! ### Funds: fee collection then hold -/
 
 /-- `bal` covers every coin of `need` (per denom, `need` merged). -/
@@ -401,18 +540,17 @@ def createBid (mk : Option Market) (accAttrs : List String) (bal : Coins) (m : B
 
 /-- msg_server.go:48 `CommitFunds`: `ValidateAndCollectCommitmentCreationFee`
 (commitments.go:251) and then `AddCommitment` (commitments.go:101,132).  The creation fee is
-validated and collected *before* the market is looked at; a market that does not exist has
-no fee options. -/
-def commitFunds (mk : Option Market) (accAttrs : List String) (bal : Coins) (m : CommitMsg) :
+validated against the options stored under the id and collected *before* the market is
+looked at (the options may be there without the market). -/
+def commitFunds (s : MStore) (accAttrs : List String) (bal : Coins) (m : CommitMsg) :
     Except Rej Unit :=
   if !m.valid then .error .invalid else
-  let opts := match mk with | some mkt => mkt.createCommitFlat | none => []
-  match validateFlatFee opts m.cfee with
+  match validateFlatFee s.m.createCommitFlat m.cfee with
   | .error e => .error e
   | .ok _ =>
     let feeCoins : Coins := match m.cfee with | some c => [c] | none => []
     if !covers bal feeCoins then .error .funds else
-    match validateMarketIsAcceptingCommitments mk with
+    match validateMarketIsAcceptingCommitments s.view with
     | .error e => .error e
     | .ok mkt =>
       if !acctHasReqAttrs mkt.reqCommit accAttrs then .error .attr
